@@ -534,6 +534,15 @@ func (e Element) Write(w io.Writer, indent int) error {
 			}
 		}
 	}
+	if !e.IndentAttrs {
+		// The same holds for any attribute that is written over several lines, e.g. a conditional attribute.
+		for _, a := range e.Attributes {
+			b := new(bytes.Buffer)
+			if err := a.Write(b, 0); err == nil && bytes.Contains(b.Bytes(), []byte("\n")) {
+				e.IndentAttrs = true
+			}
+		}
+	}
 	for i := range e.Attributes {
 		a := e.Attributes[i]
 		// Only the conditional attributes get indented.
